@@ -33,12 +33,13 @@ func libraryPkgs(p *load.Prog) []*packages.Package {
 }
 
 func checkC14(c *core.Ctx) {
-	c.Explainf("C14 (decided clauses: the structural ways this code could be impure or order-dependent; absence of data races as such is a dynamic notion and NOT decided). R1: every `range` over a map in the non-test code of the three library packages is enumerated and its body classified — insertion into a map/set, deletion, raising a flag and `continue` are order-independent; an `append` is accepted only if the slice is sorted afterwards in the same function; a `return`/`break` that carries a value derived from the iteration variables, or an emit, makes the result depend on map iteration order. R2: no function of the library packages assigns to, deletes from, or updates through an alias a package-level variable (the type tables are read-only). R2c: no package-level variable holds a struct of the package whose pointer-receiver methods, reachable from the exported API, assign to receiver fields (a lazily filled cache on a shared value). R3: Generate, which receives File by value, never appends to a slice of its receiver without first clipping its capacity (otherwise it writes into the caller's backing array — the race the property describes). R3b: no function with a by-value File/record writes through a local alias of one of its exported slices — append onto a re-slice (the in-place filter `x := f.Consts[:0]`), element store, in-place sort, copy into — (positive control: fixtures/aliaswrite). R4: every pointer- or map-typed scratch field of GenerateSettings is given a fresh value in File.Generate before the first record is generated. R5: the generator is folded twice by the evaluator over the first two batches of the exploration, visiting map keys in ascending and in descending order; the emitted text must be identical.")
+	c.Explainf("C14 (decided clauses: the structural ways this code could be impure or order-dependent; absence of data races as such is a dynamic notion and NOT decided). R1: every `range` over a map in the non-test code of the three library packages is enumerated and its body classified — insertion into a map/set, deletion, raising a flag and `continue` are order-independent; an `append` is accepted only if the slice is sorted afterwards in the same function; a `return`/`break` that carries a value derived from the iteration variables, or an emit, makes the result depend on map iteration order. R2: no function of the library packages assigns to, deletes from, or updates through an alias a package-level variable (the type tables are read-only). R2c: no package-level variable holds a struct of the package whose pointer-receiver methods, reachable from the exported API, assign to receiver fields (a lazily filled cache on a shared value). R3: Generate, which receives File by value, never appends to a slice of its receiver without first clipping its capacity (otherwise it writes into the caller's backing array — the race the property describes). R3b: no function with a by-value File/record writes through a local alias of one of its exported slices — append onto a re-slice (the in-place filter `x := f.Consts[:0]`), element store, in-place sort, copy into — (positive control: fixtures/aliaswrite). R3d: outside the parser no assignment's target is reached through a pointer-typed field of a schema type (UnionField.Struct / .Message): a by-value File still points at the caller's branch records. R4: every pointer- or map-typed scratch field of GenerateSettings is given a fresh value in File.Generate before the first record is generated. R5: the generator is folded twice by the evaluator over the first two batches of the exploration, visiting map keys in ascending and in descending order; the emitted text must be identical.")
 	p := loadRepo(c)
 	if p == nil {
 		return
 	}
 	mapOrderFold(c, p)
+	pointerFieldWrites(c, p)
 	sharedMutableGlobals(c, p)
 	nRanges := 0
 	sortsParam = makeSortsParam(p)
@@ -833,6 +834,27 @@ func scanGlobalWrites(info *types.Info, files []*ast.File, report func(fname, wh
 						report(fname, "writes package-level "+g, "a library function increments package-level state", x.Pos())
 					}
 				case *ast.CallExpr:
+					// G.M(…) with M declared on *T: the method is handed the address of
+					// package-level G. For a type of another package (sync.Map, a
+					// bytes.Buffer, a sync.Pool) the body is not ours to read: every
+					// such call counts as a write unless the method is one of the
+					// few that only read.
+					if sel, ok := ast.Unparen(x.Fun).(*ast.SelectorExpr); ok {
+						if msel, isM := info.Selections[sel]; isM && msel.Kind() == types.MethodVal {
+							if g, isG := isGlobal(sel.X); isG {
+								if fn, okF := msel.Obj().(*types.Func); okF {
+									if sig, okS := fn.Type().(*types.Signature); okS && sig.Recv() != nil {
+										_, ptrRecv := sig.Recv().Type().(*types.Pointer)
+										foreign := fn.Pkg() == nil || info.Defs[fd.Name] == nil || fn.Pkg() != info.Defs[fd.Name].Pkg()
+										readOnly := map[string]bool{"Load": true, "Range": true, "Len": true, "String": true, "Bytes": true, "Cap": true}
+										if ptrRecv && foreign && !readOnly[fn.Name()] {
+											report(fname, "calls "+fn.Name()+" on package-level "+g, "a method with a pointer receiver on a package-level value of another package's type (a cache, a pool, a buffer): what this call returns, or a later one, depends on the calls that came before", x.Pos())
+										}
+									}
+								}
+							}
+						}
+					}
 					if id, ok := x.Fun.(*ast.Ident); ok && id.Name == "delete" && len(x.Args) == 2 {
 						if g, isG := isGlobal(x.Args[0]); isG {
 							report(fname, "deletes from package-level "+g, "a library function deletes from a package-level map", x.Pos())
@@ -862,16 +884,16 @@ func positiveControlGlobalWrite(c *core.Ctx) {
 		return
 	}
 	info := &types.Info{Types: map[ast.Expr]types.TypeAndValue{}, Defs: map[*ast.Ident]types.Object{}, Uses: map[*ast.Ident]types.Object{}, Selections: map[*ast.SelectorExpr]*types.Selection{}}
-	if _, err := (&types.Config{}).Check("fx", fset, []*ast.File{f}, info); err != nil {
+	if _, err := (&types.Config{Importer: importer.ForCompiler(fset, "source", nil)}).Check("fx", fset, []*ast.File{f}, info); err != nil {
 		c.Undecide("positive control fixture does not type-check: %v", err)
 		return
 	}
 	hits := map[string]bool{}
 	scanGlobalWrites(info, []*ast.File{f}, func(fname, what, why string, pos token.Pos) { hits[fname] = true })
-	for _, want := range []string{"direct", "aliased", "deleted", "incremented"} {
+	for _, want := range []string{"direct", "aliased", "deleted", "incremented", "cached"} {
 		c.Check("R2", "positive control: "+want+" write to package-level state is recognised", "fixtures/globalwrite/fx.go", hits[want], "the rule no longer matches the shape it is meant to find")
 	}
-	c.Check("R2", "positive control: a read of package-level state is not reported", "fixtures/globalwrite/fx.go", !hits["readonly"], "")
+	c.Check("R2", "positive control: a read of package-level state is not reported", "fixtures/globalwrite/fx.go", !hits["readonly"] && !hits["looked"], "")
 }
 
 
@@ -1318,4 +1340,87 @@ func makeResultOnlyFoldedIntoSets(p *load.Prog) func(info *types.Info, fd *ast.F
 		}
 		return ok && calls > 0
 	}
+}
+
+// pointerFieldWrites: R3d. The records of a union's branches hang off the File
+// by pointer (UnionField.Struct, UnionField.Message). Generate, Validate and
+// Format receive the File by value, but a copy of a File (of a Union, of a
+// UnionField) still points at the caller's branch records: an assignment whose
+// target is reached through such a pointer-typed field writes into the
+// caller's File. Outside the parser, which builds those records, nothing may.
+func pointerFieldWrites(c *core.Ctx, p *load.Prog) {
+	pkg := p.Bebop()
+	info := pkg.TypesInfo
+	n, sites := 0, 0
+	throughPointerField := func(e ast.Expr) string {
+		for {
+			switch x := ast.Unparen(e).(type) {
+			case *ast.SelectorExpr:
+				if sel, ok := info.Selections[x]; ok && sel.Kind() == types.FieldVal {
+					// is the operand itself a pointer-typed field of a schema type?
+					if inner, ok := ast.Unparen(x.X).(*ast.SelectorExpr); ok {
+						if isel, ok := info.Selections[inner]; ok && isel.Kind() == types.FieldVal {
+							if pt, ok := info.TypeOf(inner).(*types.Pointer); ok {
+								if nt, ok := pt.Elem().(*types.Named); ok && nt.Obj().Pkg() == pkg.Types {
+									return wire.Canon(inner)
+								}
+							}
+						}
+					}
+				}
+				e = x.X
+			case *ast.IndexExpr:
+				e = x.X
+			case *ast.StarExpr:
+				if inner, ok := ast.Unparen(x.X).(*ast.SelectorExpr); ok {
+					if isel, ok := info.Selections[inner]; ok && isel.Kind() == types.FieldVal {
+						if pt, ok := info.TypeOf(inner).(*types.Pointer); ok {
+							if nt, ok := pt.Elem().(*types.Named); ok && nt.Obj().Pkg() == pkg.Types {
+								return wire.Canon(inner)
+							}
+						}
+					}
+				}
+				e = x.X
+			default:
+				return ""
+			}
+		}
+	}
+	for _, file := range pkg.Syntax {
+		fname := filepath.Base(p.Fset.Position(file.Pos()).Filename)
+		if strings.HasPrefix(fname, "parse") || strings.HasPrefix(fname, "token") || strings.HasSuffix(fname, "_test.go") {
+			continue // the parser builds the records it later hands out
+		}
+		for _, d := range file.Decls {
+			fd, ok := d.(*ast.FuncDecl)
+			if !ok || fd.Body == nil {
+				continue
+			}
+			n++
+			ast.Inspect(fd.Body, func(nd ast.Node) bool {
+				var targets []ast.Expr
+				switch x := nd.(type) {
+				case *ast.AssignStmt:
+					if x.Tok != token.DEFINE {
+						targets = x.Lhs
+					}
+				case *ast.IncDecStmt:
+					targets = []ast.Expr{x.X}
+				}
+				for _, t := range targets {
+					if via := throughPointerField(t); via != "" {
+						sites++
+						c.Check("R3d", fmt.Sprintf("%s does not write through the record pointer %s", fd.Name.Name, via), p.Pos(t.Pos()), false,
+							fmt.Sprintf("%s = … is reached through %s, a pointer stored in the File: the by-value copy Generate/Validate/Format work on still points at the caller's record, so the caller's File is modified (and two concurrent calls race on it)", wire.Canon(t), via))
+					}
+				}
+				return true
+			})
+		}
+	}
+	c.Check("R3d", "nothing outside the parser writes through a record pointer stored in the File (scan complete)", pkg.PkgPath, true, "")
+	c.Count("functions_scanned_for_pointer_field_writes", n)
+	c.Floor("functions_scanned_for_pointer_field_writes", 40)
+	_ = sites
 }
